@@ -356,6 +356,41 @@ pub fn replay(schedfile: &str, threads: usize, dir: &str, seed: u64, stride: usi
     eprintln!("replayed={} unreplayable={}", done, unrep);
 }
 
+/// trace minw0big <seed> <dir>: `w = 0` (one window spanning the record) on a record of more than 2^20 bases, through
+/// seq_to_min; the single line is turned into the events of one iterator run with w = record length, which LongTrace judges
+pub fn w0big(seed: u64, dir: &str) {
+    let mut rng = Rng::new(seed);
+    let m = 2 + rng.below(2) as usize;
+    let n = (1usize << 20) + 30_000 + rng.below(1000) as usize;
+    // the smallest m-mers sit near both ends only (a window that does not span the whole record misses one of them)
+    let mut s: Vec<u8> = (0..n).map(|_| *rng.pick(b"CG")).collect();
+    let p0 = 10 + rng.below(50) as usize;
+    s[p0..p0 + 4].copy_from_slice(b"CAAC");
+    let inp = format!("{}/w0big.fa", dir);
+    let out = format!("{}/w0big.out", dir);
+    write_fasta(&inp, &[s.clone(), b"ACGTACGTAC".to_vec()]);
+    let _ = std::fs::remove_file(&out);
+    let r = std::panic::catch_unwind(|| misc::minimisers::seq_to_min(0, m, &inp, &out, 2));
+    if r.is_err() {
+        println!("{}", json!({"ev":"crash","kind":"panic","what":"min -w 0 on a long record"}));
+    } else {
+        let mut evs = Vec::new();
+        decode_s2m(&out, &mut evs);
+        for e in evs.iter().filter(|e| e["ev"] == "s2mline" && e["rec"] == 0) {
+            println!("{}", json!({"ev":"minit","w":n,"m":m,"kv":0,"bytes":s}));
+            for run in e["runs"].as_array().unwrap() {
+                let mut d = vec![0i64; 32 - m];
+                d.extend(run[0].as_array().unwrap().iter().map(|x| x.as_i64().unwrap()));
+                println!("{}", json!({"ev":"mrun","open":1,"v":d,"s":run[1],"e":run[2],"kmers":[]}));
+            }
+            println!("{}", json!({"ev":"mend"}));
+        }
+    }
+    let _ = std::fs::remove_file(&inp);
+    let _ = std::fs::remove_file(&out);
+    println!("{}", json!({"ev":"eof"}));
+}
+
 /// decode minout <fasta> <out> <mode> <w> <m>: an output file written by the command line, as a run of MinOutTrace (one silent worker)
 pub fn decode(fasta: &str, out: &str, m2s: bool, w: usize, m: usize) {
     let recs = read_simple_fasta(fasta);
